@@ -72,7 +72,7 @@ Example cli_nocode_predicates :
   let failure := fun _ : str => CErr 1 0 (d "syntax error") in
   let trace := fun (dfn : bool) (s t : str) =>
      [(ChGenerator, d "Compiling clauses for ('none', 0)"); (ChGenerator, d "-- Clause: none :- fail\10;x = 1"); (ChParser, d "visit")] in
-  let src := d "k(a).\10;none :- fail.\10;none :- true, fail, k(X).\10;none :- fail, !.\10;" in
+  let src := d "k(a).\10;none :- fail.\10;none :- true, fail, k(a).\10;none :- fail, !.\10;" in
   let fs := fun s => if str_eqb s (d "x.pl") then Some (RText src) else None in
   let run := fun f => yldpc_lib printable failure trace f (d "-") [d "x.pl"] fs (RText []) in
   (exists text, compile_text printable src = CText text /\ r_end (run (Flags false false false false)) = EOk /\
